@@ -42,12 +42,59 @@ theorem ecdsa_recoverable_signature_parse_compact_sites : Facts.ecdsa_recoverabl
     ⟨.scalar_set_b32, 2, false, some true⟩
   ] := by decide
 
-def all : List CallFact := Facts.ecdsa_sig_verify ++ Facts.ecdsa_verify ++ Facts.ecdsa_signature_parse_compact ++ Facts.ecdsa_recoverable_signature_parse_compact
+/-- `secp256k1_ecdsa_sig_sign`: its fallible-primitive call sites are exactly these, each with its result / overflow flag
+    consumed as listed. -/
+theorem ecdsa_sig_sign_sites : Facts.ecdsa_sig_sign = [
+    ⟨.scalar_set_b32, 1, false, some true⟩,
+    ⟨.scalar_is_high, 1, true, none⟩,
+    ⟨.scalar_is_zero, 1, true, none⟩,
+    ⟨.scalar_is_zero, 2, true, none⟩
+  ] := by decide
+
+/-- `secp256k1_ecdsa_sign_inner`: its fallible-primitive call sites are exactly these, each with its result / overflow flag
+    consumed as listed. -/
+theorem ecdsa_sign_inner_sites : Facts.ecdsa_sign_inner = [
+    ⟨.scalar_set_b32_seckey, 1, true, none⟩,
+    ⟨.scalar_set_b32, 1, false, none⟩,
+    ⟨.scalar_set_b32_seckey, 2, true, none⟩
+  ] := by decide
+
+/-- `secp256k1_ecdsa_signature_load`: its fallible-primitive call sites are exactly these, each with its result / overflow flag
+    consumed as listed. -/
+theorem ecdsa_signature_load_sites : Facts.ecdsa_signature_load = [
+    ⟨.scalar_set_b32, 1, false, none⟩,
+    ⟨.scalar_set_b32, 2, false, none⟩
+  ] := by decide
+
+/-- `secp256k1_ecdsa_recover`: its fallible-primitive call sites are exactly these, each with its result / overflow flag
+    consumed as listed. -/
+theorem ecdsa_recover_sites : Facts.ecdsa_recover = [
+    ⟨.scalar_set_b32, 1, false, none⟩
+  ] := by decide
+
+/-- `secp256k1_ecdsa_recoverable_signature_load`: its fallible-primitive call sites are exactly these, each with its result / overflow flag
+    consumed as listed. -/
+theorem ecdsa_recoverable_signature_load_sites : Facts.ecdsa_recoverable_signature_load = [
+    ⟨.scalar_set_b32, 1, false, none⟩,
+    ⟨.scalar_set_b32, 2, false, none⟩
+  ] := by decide
+
+/-- `secp256k1_ecdsa_sig_recover`: its fallible-primitive call sites are exactly these, each with its result / overflow flag
+    consumed as listed. -/
+theorem ecdsa_sig_recover_sites : Facts.ecdsa_sig_recover = [
+    ⟨.scalar_is_zero, 1, true, none⟩,
+    ⟨.scalar_is_zero, 2, true, none⟩,
+    ⟨.fe_impl_set_b32_limit, 1, true, none⟩,
+    ⟨.ge_set_xo_var, 1, true, none⟩,
+    ⟨.gej_is_infinity, 1, true, none⟩
+  ] := by decide
+
+def all : List CallFact := Facts.ecdsa_sig_verify ++ Facts.ecdsa_verify ++ Facts.ecdsa_signature_parse_compact ++ Facts.ecdsa_recoverable_signature_parse_compact ++ Facts.ecdsa_sig_sign ++ Facts.ecdsa_sign_inner ++ Facts.ecdsa_signature_load ++ Facts.ecdsa_recover ++ Facts.ecdsa_recoverable_signature_load ++ Facts.ecdsa_sig_recover
 
 /-- No overflow flag written by a scalar decoding in these functions is ignored (overwritten or never read). -/
 theorem no_flag_dropped : ∀ f ∈ all, f.flag ≠ some false := by decide
 
 /-- non-vacuity: the regenerated fact lists are not empty -/
-example : all.length = 11 := by decide
+example : all.length = 28 := by decide
 
 end SecpZkp.Props.C01_guards
